@@ -8,13 +8,16 @@ EXTENDS C01Grammar
 
 C03CtxText == "(def e :outer-e) (def thrower (fn [v] (throw v))) " \o
            "(def deep (fn [n v] (if (< n 1) (throw v) (deep (- n 1) v)))) " \o
-           "(defmacro mthrow (fn [v] `(throw ~v)))"
+           "(defmacro mthrow (fn [v] `(throw ~v))) " \o
+           "(def at (atom 1))"
 C03CtxForms == ReadAll(C03CtxText)
 
 C03G == Grammar(
   <<"1", "\"s\"", ":k", "'sym", "'(1 2)", "'(+ 1 2)", "{:a 1}", "nil", "e", "(raise!)", "(boom!)",
     "(boom-str!)", "(nth [] 5)", "(trace! :b)", "undefined-symbol", "['x]", "(rawboom!)", "(rawboom-str!)", "(rawraise!)",
-    "(go-error \"user:g\")", "(panic \"p\")", "(panic (go-error \"user:q\"))">>,
+    "(go-error \"user:g\")", "(panic \"p\")", "(panic (go-error \"user:q\"))",
+    \* an update function that writes the atom being swapped and then throws: the throw is delivered, not retried away
+    "(swap! at (fn [v] (reset! at (+ v 1)) (throw :stale)))">>,
   <<"(error-string _1)", "(unwrap-error _1)", "(throw _1)", "(thrower _1)", "(deep 2 _1)", "(mthrow _1)", "(try _1)", "(try _1 (catch e e))",
     "(try _1 (catch e :h))", "(try _1 (catch e (throw e)))", "(try _1 (catch e (trace! e)))",
     "(try _1 (finally (trace! :f)))", "(try _1 (finally (trace! e)))",
